@@ -5,6 +5,8 @@ import (
 
 	coreiface "github.com/ipfs/kubo/core/coreiface"
 	"go.uber.org/zap"
+
+	"berty.tech/weshnet/v2/pkg/protocoltypes"
 )
 
 // The archive is a contract object: a list of tar members (name, body). verif_archiveAdd appends a member:
@@ -26,8 +28,16 @@ func VerifC20Restore(n, dstHasAccount int) {
 	ak, pk, err := src.ExportAccountKeysForBackup()
 	verif_assume(err == nil)
 	dst := verifSecretStore("dst")
-	if dstHasAccount == 1 {
+	// the keys of a store are created lazily and independently: "already holds an account" = holds the account key (1),
+	// only the proof key -- e.g. after a multi-member group was used (2) --, or both (3)
+	if dstHasAccount == 1 || dstHasAccount == 3 {
 		_, err := dst.GetAccountPrivateKey()
+		verif_assume(err == nil)
+	}
+	if dstHasAccount == 2 || dstHasAccount == 3 {
+		g, _, err := protocoltypes.NewGroupMultiMember()
+		verif_assume(err == nil)
+		_, err = dst.GetOwnMemberDeviceForGroup(g)
 		verif_assume(err == nil)
 	}
 	odb := &WeshOrbitDB{secretStore: dst}
